@@ -311,6 +311,40 @@ func c10RenderSig(nodes []*mnode) string {
 	return "render-differs:text"
 }
 
+// ---- escaping: every value over the escapable characters
+
+var mEscAlphabet = []rune("\\\"/\b\f\n\r\taя")
+var mEscTemplates = []string{"{{{a}}}", "{{a}}", "{{#B}}<{{{ a }}}>{{/B}}", "x{{{A}}}y{{a}}"}
+
+func c10Escaping(c *fw.Ctx, ti int, value string) {
+	text := mEscTemplates[ti]
+	t := mustache.NewMustacheTemplate()
+	if err := t.SetTemplate(text); err != nil {
+		c.Violation("well-formed-template-rejected", "SetTemplate(%q) fails: %v", text, err)
+		return
+	}
+	m := map[string]string{"a": value, "b": "1"}
+	var want string
+	switch ti {
+	case 0:
+		want = mEscape(value)
+	case 1:
+		want = value
+	case 2:
+		want = "<" + mEscape(value) + ">"
+	case 3:
+		want = "x" + mEscape(value) + "y" + value
+	}
+	var got string
+	var err error
+	pv := fw.Try(func() { got, err = t.EvaluateWithVariables(m) })
+	c.Eval(1)
+	c.Nontrivial()
+	if pv != nil || err != nil || got != want {
+		c.Violation("render-differs:escaped-variable", "template %q with a=%q renders %q (err %v, panic %v), reference %q", text, value, got, err, pv, want)
+	}
+}
+
 // ---- accept / reject over lexeme sequences
 
 var mLexemes = []string{"{{", "}}", "{{{", "}}}", "#", "/", "^", "!", "if", "unless", "a", "b", "x"}
@@ -521,16 +555,18 @@ func init() {
 	fw.Register(&fw.Check{
 		ID:    "C10",
 		Level: "model_checking",
-		Rule: "(semantics) every template AST that is a sequence of <=2 (thorough 3) nodes over 11 leaves (texts incl. '}', non-ASCII, blanks; variables and escaped variables a/B; comments) and sections/inverted sections of a/B with bodies of <=2 nodes (thorough: bodies may contain inner sections), printed with rotating spellings (#n/#if n, ^n/#unless n, closed by name, /if or /unless, double/triple braces, inner blanks) plus a dedicated sweep of all 24 spellings, rendered under 16 variable maps (absent/empty/plain/escapable values, keys in either letter case) against a reference renderer; " +
+		Rule: "(semantics) every template AST that is a sequence of <=2 (thorough 3) nodes over 11 leaves (texts incl. '}', non-ASCII, blanks; variables and escaped variables a/B; comments) and sections/inverted sections of a/B with bodies of <=2 nodes (thorough: bodies may contain inner sections), printed with rotating spellings (#n/#if n, ^n/#unless n, closed by name, /if or /unless, double/triple braces, inner blanks) plus a dedicated sweep of all 24 spellings, rendered under 16 variable maps (absent/empty/plain/escapable values, keys in either letter case) against a reference renderer; every value of length<=3 (thorough 5) over the 8 escapable characters plus an ASCII and a non-ASCII letter in plain and escaped variables; " +
 			"(accept/reject) every sequence up to the length bound over 13 template lexemes joined by blanks, classified by a three-valued reference recogniser as well-formed (must be accepted and render per reference), malformed for a listed reason (must be rejected with an error code) or unspecified; non-trivial = templates with sections / classified sequences",
 		Assume: []string{"printer constraints keep lexing unambiguous (no '{{' in text, text before a tag does not end in '{', text after a tag does not start with '}', no blanks at the template's ends)", "degenerate tags ({{#if}}, {{a b}}, {{}}, ...) are unspecified"},
 		Spaces: func(tier string) []fw.Space {
 			alts := mAlternatives(2)
 			topLen := 2
 			lexLen := 5
+			escLen := 3
 			if tier == "thorough" {
 				topLen = 3
 				lexLen = 6
+				escLen = 5
 			}
 			nested := mAlternatives(3)
 			nl := len(mLexemes)
@@ -545,6 +581,11 @@ func init() {
 					kind := []string{"sec", "inv"}[int(i)/len(bodies)/mSpellings/2]
 					c10Semantics(c, []*mnode{{kind: "text", text: "<"}, {kind: kind, name: name, spelling: sp, body: b}, {kind: "text", text: ">"}})
 				}, Repr: func(i int64) string { return fmt.Sprintf("spelling sweep #%d", i) }},
+				{Name: "escaping", N: 4 * countStrings(len(mEscAlphabet), escLen), Run: func(c *fw.Ctx, i int64) {
+					c10Escaping(c, int(i%4), stringByIndex(mEscAlphabet, i/4))
+				}, Repr: func(i int64) string {
+					return fmt.Sprintf("template %q with a=%q", mEscTemplates[i%4], stringByIndex(mEscAlphabet, i/4))
+				}},
 				{Name: "ast-sequences", N: countStrings(len(alts), topLen), Run: func(c *fw.Ctx, i int64) {
 					c10Semantics(c, mSeq(alts, seqByIndex(len(alts), i), int(i%1000)))
 				}, Repr: func(i int64) string {
